@@ -321,6 +321,8 @@ def run(ctx):
                              "no_failing_input_found": True})
     except Exception as ex:
         viol.append({"kind": "model evaluation failed", "error": repr(ex)[:500], "no_failing_input_found": True})
+    import regress
+    evals += regress.run("C08", viol)
     for v in viol:
         v.setdefault("finding_class", None)
     return {"evaluations": evals, "distinct_nontrivial": len(distinct),
